@@ -51,7 +51,12 @@ func canonRV(sb *strings.Builder, v reflect.Value, depth int) {
 				sb.WriteString("row{}")
 				return
 			}
-			fmt.Fprintf(sb, "row{cols:%v keys:%v attrs:%s}", x.Columns(), x.Keys, canonVal(x.Attrs))
+			// the columns as a set: a Shift that carried a bit past its shard's last column leaves
+			// it in that shard's segment (known finding C15-F1), so Columns() of the value being
+			// encoded can be out of order while the decoded row lists the same columns in order
+			cols := append([]uint64(nil), x.Columns()...)
+			sort.Slice(cols, func(i, j int) bool { return cols[i] < cols[j] })
+			fmt.Fprintf(sb, "row{cols:%v keys:%v attrs:%s}", cols, x.Keys, canonVal(x.Attrs))
 			return
 		case *roaring.Bitmap:
 			if x == nil {
